@@ -98,7 +98,7 @@ def _norm_step(s):
         d['consistency'] = sorted(set(x[0] for x in chk.get('consistency', [])))
     if 'readd' in d and d['readd'] is not None:
         d['readd'] = {k: v for k, v in d['readd'].items() if k != 'term'}
-    if d.get('extract'): d['extract'] = {k: v for k, v in d['extract'].items() if k != 'term'}      # ties between equally cheap terms may be broken differently
+    if d.get('extract'): d['extract'] = {k: v for k, v in d['extract'].items() if k not in ('term', 'free_term')}      # ties between equally cheap terms may be broken differently
     if d.get('ematch'):
         def dh(h): return None if h is None else {'vals': h['vals']}
         d['ematch'] = {'unchanged': d['ematch']['unchanged'], 'matches': sorted(({'bound': m['bound'], 'found': m['found'], 'inst': dh(m['inst']), 'binds': {k: dh(v) for k, v in m['binds'].items()}} for m in d['ematch']['matches']), key=lambda x: json.dumps(x, sort_keys=True))}
